@@ -337,7 +337,8 @@ def run_hashseed(tier):
     cfgs = [('hierarchical', 'a'), ('hierarchical', 'b'), ('hybrid', 'd'),
             ('ddmin', 'c'), ('hierarchical', 'e'), ('hierarchical', 'g'),
             ('hybrid', 'g'), ('hierarchical', 'm'), ('ddmin', 'm'),
-            ('hierarchical', 'q'), ('ddmin', 'n')]
+            ('hierarchical', 'q'), ('ddmin', 'n'), ('hierarchical', 'r'),
+            ('ddmin', 'r')]
     seeds = [0, 1, 2, 3, 7, 11] if tier == 'quick' else list(range(24))
     results = {}
     bad = None
@@ -421,7 +422,9 @@ def partitions(tier):
                           ('hierarchical', 'q', 'hash1', 'late'),
                           ('ddmin', 'q', 'hash0', 'late'),
                           ('hierarchical', 'g', 'hash0', 'bvbool'),
-                          ('hierarchical', 'b', 'hash0', 'elim')]:
+                          ('hierarchical', 'b', 'hash0', 'elim'),
+                          ('hierarchical', 'r', 'hash0', 'late'),
+                          ('hierarchical', 'r', 'hash1')]:
       for (st, sc, orc, ms) in [tuple(list(_cfg) + ['all'])[:4]]:
         parts.append({'name': f'setorder_{st}_{sc}_{orc}'
                       + ('' if ms == 'all' else '_' + ms), 'kind': 'choices',
